@@ -69,7 +69,8 @@ type Supply struct {
 	Kids  []Node   `json:"kids,omitempty"`
 }
 
-// Node is a template node: "el" (marked element), "text", "slot", "inc" (<template include>).
+// Node is a template node: "el" (marked element), "text", "slot", "inc" (<template include>), and, in a
+// layout only, "content" (a marked element with v-html="content": the rendered page goes there).
 type Node struct {
 	K    string   `json:"k"`
 	Tag  string   `json:"tag,omitempty"`  // el
@@ -88,12 +89,14 @@ type Node struct {
 // Comp is one component file.
 type Comp struct {
 	FM    []KV   `json:"fm,omitempty"` // front-matter (string values)
+	Wrap  bool   `json:"wrap,omitempty"` // body wrapped in a plain <template> root (docs: "The Template Tag")
 	Nodes []Node `json:"nodes"`
 }
 
 // Case is the file set + data.
 type Case struct {
 	Page    []Node            `json:"page"`
+	Layout  []Node            `json:"layout,omitempty"` // layouts/base.vuego (applied to the page by default)
 	Comps   map[string]Comp   `json:"comps"`
 	Data    map[string]vals.V `json:"data"`
 	Compact bool              `json:"compact,omitempty"` // no whitespace between tags in the files
@@ -221,7 +224,11 @@ func TestProp(t *testing.T) {
 	defer run.Finish(t, rec)
 	run.Witnesses(rec, prop, replay)
 	known := kf.Load()
-	ex := exclusions{destructure: known.Open("C06-destructured-slot-props-empty")}
+	ex := exclusions{
+		destructure: known.Open("C06-destructured-slot-props-empty"),
+		frozen:      known.Open("C06-include-in-slot-content-frozen"),
+		layoutLeak:  known.Open("C06-layout-leaks-instance-slot-content"),
+	}
 
 	shard, shards := run.Shard()
 	n, done := 0, true
